@@ -36,7 +36,7 @@ def _shard(arg):
     seed, shard, n_examples, steps = arg
     rec = common.Recorder()
     holder = {}
-    M = machines.make_machine("C04Machine", Dominance, rec, holder, CFG=CFG, N=4, VALUES=VALUES, MAXKEY=19, SAVELOAD=False, draw_universe=_draw_universe)
+    M = machines.make_machine("C04Machine", Dominance, rec, holder, SELF_MERGE=True, CFG=CFG, N=4, VALUES=VALUES, MAXKEY=19, SAVELOAD=False, draw_universe=_draw_universe)
     common.run_machine(M, common.derive_seed(seed, "C04", shard), n_examples, steps, holder, rec, retry=lambda c_: machines.replay_trace(c_, Dominance))
     return rec
 
